@@ -1184,8 +1184,8 @@ impl<const W: usize> std::io::Write for SymWriter<W> {
 /// symbolic call surfaces as `Err` and what was written is a prefix of the
 /// fault-free output.
 #[cfg(kani)]
-pub fn stream_replace<C: Case, A: Automaton, const T: usize, const W: usize, const WFAULT: bool>(aut: &A) {
-    aho_corasick::verif::buffer::set_spare_capacity(Some(1));
+pub fn stream_replace<C: Case, A: Automaton, const T: usize, const W: usize, const WFAULT: bool, const SPARE: usize>(aut: &A) {
+    aho_corasick::verif::buffer::set_spare_capacity(Some(SPARE));
     let hay: [u8; T] = any();
     let rdr = SymReader::new(&hay[..], 0, usize::MAX);
     let fail_at: usize = if WFAULT { any() } else { usize::MAX };
